@@ -1068,3 +1068,24 @@ def replace_node_body_contract(prop, safety=()):
         return [('every-face-keeps-its-node-order-up-to-the-replacement', z3.Or(same, replaced))]
     return Contract('cell::replace_node', prop, pre=pre, post=post, slice_loop=0, safety=set(safety),
                     name='cell::replace_node::<walk around the old node, loop body: orientation kept>')
+
+
+# ---- local_mesh_refiner::refine_mesh, prologue: the work list is a copy of the edge set the length checks will run on ---------------------------------
+def refine_prologue_contract(prop):
+    """up to the entry of the length-check loop: `edge_to_check_set` holds exactly the edges the cell has at that point (after the sliver removal,
+    which rewires edges: a copy taken earlier lists edges that no longer exist and face ids of recycled slots)"""
+    anything = lambda qn, note: Contract(qn, prop, frame=lambda C: [('*', None)], name=qn + ' (' + note + ')')
+
+    def post(C):
+        if C.outcome != 'loop-entry': return []
+        n = C.new
+        c = C.val('c').ref
+        local = [v for k, v in C.post_state.env.items() if C.e.var_names.get(k) == 'edge_to_check_set'][0]
+        s = eset(n, c)
+        k = z3.Int('any_edge_key')
+        same = z3.And(member(n, local.ref, k) == member(n, s, k), *[z3.Implies(member(n, s, k), stored(n, local.ref, k, l) == stored(n, s, k, l)) for l in EDGE_LEAVES])
+        return [('the-work-list-is-the-current-edge-set-of-the-cell', same)]
+
+    return Contract('local_mesh_refiner::refine_mesh', prop, pre=lambda C: [('cell-non-null', C.val('c').ref > 0)], post=post, prefix_loop=0,
+                    use=[anything('local_mesh_refiner::remove_elongated_triangles', 'edge swaps: any effect on the mesh'), anything('cell::update_centroid', 'any effect')],
+                    name='local_mesh_refiner::refine_mesh::<prologue: the work list is the current edge set>')
